@@ -95,6 +95,11 @@ func (c *cache) flushScheduler() {
 						for _, queued := range b {
 							c.flushObjs.Delete(queued)
 						}
+						if !handledAddr {
+							// the current address is marked already, but
+							// is not a member of the pending batch yet
+							c.flushObjs.Delete(addr)
+						}
 						break addrLoop
 					case c.flushCh <- b:
 					case <-c.closeCh:
